@@ -3,6 +3,8 @@
 package sml
 
 import (
+	"strconv"
+
 	rt "github.com/wolimst/lib-secs2-hsms-go/pkg/zzverifrt"
 )
 
@@ -20,9 +22,42 @@ func zzMaxU(w int) uint64 {
 func ZZ_C05_int() {
 	typ, cls, k, neg := rt.Param("typ"), rt.Param("cls"), rt.Param("k"), rt.Param("neg")
 	base := []int{10, 16, 8, 2}[cls]
-	digits, val, huge := zzDigits("d", k, base)
-	if cls == 0 && k > 1 {
-		rt.Assume(digits[0] != '0') // a leading zero would be read as octal by Go's base-0 rule (unspecified in SML)
+	var digits string
+	var val uint64
+	var huge bool
+	if edge := rt.Param("edge"); edge > 0 {
+		// boundary literals: the leading digits of the type's largest magnitude are concrete, the
+		// last `edge` digits symbolic, so the literal straddles the limit of the type
+		w := zzWidth[typ]
+		limit := zzMaxU(w)
+		if zzIsSigned(typ) {
+			limit = limit>>1 + uint64(neg)
+		}
+		if typ == zzB {
+			limit = 255
+		}
+		if typ == zzA {
+			limit = 127
+		}
+		pw := uint64(1)
+		for i := 0; i < edge; i++ {
+			pw *= uint64(base)
+		}
+		pre := limit / pw
+		preStr := strconv.FormatUint(pre, base)
+		tail, tv, _ := zzDigits("d", edge, base)
+		digits = preStr + tail
+		hi := pre > (^uint64(0)-tv)/pw
+		huge = hi
+		val = pre*pw + tv
+		if pre == 0 {
+			rt.Assume(tail[0] != '0')
+		}
+	} else {
+		digits, val, huge = zzDigits("d", k, base)
+		if cls == 0 && k > 1 {
+			rt.Assume(digits[0] != '0') // a leading zero would be read as octal by Go's base-0 rule (unspecified in SML)
+		}
 	}
 	prefix := ""
 	if cls > 0 {
